@@ -39,7 +39,7 @@ PID = "C03"
 LEVEL = "proof"
 # C03b: compiled ghost-cell setter (sequential loops, chain) = interpreted setter, as two model definitions proved equal;
 # C18b: matrix route = stencil route on the array the setter produces
-EXTRA_PROP_FILES = ["C03b", "C03c", "C18b"]
+EXTRA_PROP_FILES = ["C03b", "C03c", "C03d", "C18b"]
 REQUIRED_THEOREMS = [
     "chain_eq_foldl", "setGhostLoop_apply", "points_sound", "points_complete", "compiledLocal_eq_setGhost",
     "compiled_setter_eq_interpreted", "compiled_setter_eq_interpreted_scalar", "readLog_compiledSetterLog",
@@ -1249,6 +1249,19 @@ def user_case(case):
         f.set_ghost_cells(user_bc, args={tgt: g})
         return f.apply_operator(opn, bc=None).data
     attempt("field.set_ghost_cells(user, args) + apply_operator(bc=None)", interp_route)
+    if nd == 1:
+        # the ghost cells themselves (tie with `BC.userGhost`): interpreted and compiled setter, lower and upper side
+        try:
+            f = pde.ScalarField(grid, data.copy())
+            f.set_ghost_cells(user_bc, args={tgt: g})
+            full_i = np.array(f._data_full, dtype=float)
+            full_c = np.zeros(shape[0] + 2)
+            full_c[1:-1] = data
+            get_backend("numba").make_ghost_cell_setter(grid.get_boundary_conditions(user_bc))(full_c, args=numba_dict({tgt: g}))
+            out["_ghosts"] = {"interpreted": [float(full_i[0]), float(full_i[-1])], "compiled": [float(full_c[0]), float(full_c[-1])],
+                              "cells": [float(data[0]), float(data[-1])]}
+        except Exception as e:  # noqa
+            out["_ghosts"] = f"EXC {type(e).__name__}: {e}"[:300]
     return out
 
 
@@ -1259,7 +1272,7 @@ def judge_user(case, rr):
     ref = rr["ref"]
     scale = 1.0 + float(np.max(np.abs(ref))) if np.isfinite(ref).all() else 1.0
     for name, arr in rr.items():
-        if name == "ref" or name.startswith("_skip"):
+        if name == "ref" or name.startswith("_skip") or name == "_ghosts":
             continue
         if isinstance(arr, str):
             fails.append((name, arr, {"route": name, "symptom": "raised-with-user-condition"}))
@@ -1275,11 +1288,36 @@ def user_leg(ctx):
     res = run_many("harness.c03", "user_case", ucases, env={"NUMBA_DISABLE_JIT": "1"}, procs=12)
     jit_ids = sorted(urng.sample(range(len(ucases)), min(ctx.budget(4, 30), len(ucases))))
     res_j = dict(zip(jit_ids, run_many("harness.c03", "user_case", [ucases[i] for i in jit_ids], env={"NUMBA_DISABLE_JIT": "0"}, procs=6)))
+    from harness.common.lean import LeanBatch
+    batch = LeanBatch(ctx.workdir)
+    greq = {}
+    for ci, (c, rr) in enumerate(zip(ucases, res)):
+        if isinstance(rr, dict) and isinstance(rr.get("_ghosts"), dict):
+            dx = Fraction(c["bounds"][0][1] - c["bounds"][0][0]) / c["shape"][0]
+            greq[ci] = batch.add("c03.userghost", {"target": c["target"], "dx": q(dx), "v": q(float(c["g"])),
+                                                   "cells": [q(x) for x in rr["_ghosts"]["cells"]]})
+    ganswers = batch.run() if greq else []
     for ci, c in enumerate(ucases):
         for mode, rr in (("source", res[ci]), ("jit", res_j.get(ci))):
             if rr is None:
                 continue
             rec = dict(c, mode=mode)
+            if isinstance(rr, dict) and isinstance(rr.get("_ghosts"), str):
+                ctx.disagree("userbc", rec, "ghost cells of the setters", rr["_ghosts"], "the setters raised")
+            if ci in greq and isinstance(rr, dict) and isinstance(rr.get("_ghosts"), dict):
+                st, val = ganswers[greq[ci]]
+                if st != "ok":
+                    ctx.disagree("userbc", rec, f"model error {val}", None, "c03.userghost")
+                else:
+                    mu = [float(unq(x)) for x in val["user"]]
+                    mo = [float(unq(x)) for x in val["ordinary"]]
+                    ctx.hist("userbc-ghost-model", "compared")
+                    if mu != mo:
+                        ctx.disagree("userbc", rec, mu, mo, "model: userGhost differs from the ordinary condition's ghost value")
+                    for which in ("interpreted", "compiled"):
+                        real = rr["_ghosts"][which]
+                        if any(far(a - b, 1e-12 * (1 + abs(a))) for a, b in zip(mu, real)):
+                            ctx.disagree("userbc", dict(rec, setter=which), mu, real, f"BC.userGhost vs the ghost cells of the {which} setter")
             ctx.count(rec, nontrivial=len(set(c["data"])) > 1, leg="userbc")
             ctx.hist("userbc", f"{len(c['shape'])}d:{c['op']}:{c['target']}:{mode}")
             ctx.impl_traces += 1
